@@ -58,12 +58,19 @@ def sel(a, b):
     return 3 * b
 
 
+def cut(a, b):
+    v = a
+    if a > b:
+        v = v - b
+    return v
+
+
 def mad(a, b, c):
     return a * b + c
 
 
 ARITY = {"one": 0, "two": 0, "id": 1, "neg": 1, "dbl": 1, "inc": 1, "step": 1, "dsum": 1, "loopinc": 1,
-         "add": 2, "sub": 2, "mul": 2, "sel": 2, "mad": 3}
+         "add": 2, "sub": 2, "mul": 2, "sel": 2, "cut": 2, "mad": 3}
 FNS = {n: globals()[n] for n in ARITY}
 
 
